@@ -27,7 +27,7 @@ import types
 REAL = {}
 CUR = threading.local()
 STATE = types.SimpleNamespace(root=None, installed=False, shims=[], files=[], flocks={}, mainctr=itertools.count(),
-                              dirty=set(), outside=None, slists=[], shared_private=set(), priv_owner={}, escapes=[], audit=False,
+                              dirty=set(), outside=None, slists=[], shared_private=set(), priv_owner={}, escapes=[], audit=False, fdpaths={},
                               audited=0)
 
 TMP_PREFIXES = ("objects/tmp", "metadata/tmp", "refs/tmp")
@@ -103,6 +103,7 @@ def reset_execution():
     STATE.dirty = set()
     STATE.slists = []
     STATE.priv_owner = {}
+    STATE.fdpaths = {}
     from . import gstate
     gstate.reset()  # module globals / class attributes / memoising caches of the package back to their pristine values
 
@@ -128,6 +129,24 @@ def relp(p):
     if p.startswith(root + "/"):
         return p[len(root) + 1:]
     return None
+
+
+def _resolve(x, dir_fd=None):
+    """Path behind a directory descriptor / a name relative to one (shutil.rmtree and friends work through dir_fd)."""
+    if isinstance(x, int):
+        return STATE.fdpaths.get(x)
+    if dir_fd is not None:
+        try:
+            p = os.fspath(x)
+        except TypeError:
+            return x
+        if isinstance(p, bytes):
+            p = p.decode("utf-8", "surrogateescape")
+        if not p.startswith("/"):
+            base = STATE.fdpaths.get(dir_fd)
+            if base is not None:
+                return os.path.join(base, p)
+    return x
 
 
 def is_private(r):
@@ -172,7 +191,11 @@ def _mk_hook(name, nargs):
         w = cur()
         if w is None:
             return real(*a, **k)
-        rs = [relp(x) for x in a[:nargs]]
+        if nargs == 2:
+            dfds = (k.get("src_dir_fd"), k.get("dst_dir_fd"))
+        else:
+            dfds = (k.get("dir_fd"),)
+        rs = [relp(_resolve(x, d)) for x, d in zip(a[:nargs], dfds)]
         if all(r is None for r in rs):
             if kind not in ("probe",) and STATE.outside is not None:
                 STATE.outside.append((name,) + tuple(str(x) for x in a[:nargs]))
@@ -211,7 +234,8 @@ def _mk_hook(name, nargs):
 
 def _os_open(path, flags, mode=0o777, *, dir_fd=None):
     w = cur()
-    r = relp(path) if w is not None else None
+    full = _resolve(path, dir_fd) if w is not None else path
+    r = relp(full) if w is not None else None
     if r is None:
         if w is not None and STATE.outside is not None and flags & (os.O_CREAT | os.O_WRONLY | os.O_RDWR | os.O_TRUNC):
             STATE.outside.append(("os.open", str(path)))
@@ -233,6 +257,12 @@ def _os_open(path, flags, mode=0o777, *, dir_fd=None):
     except OSError as e:
         w.obs(op, "err", e.errno)
         raise
+    STATE.fdpaths.pop(fd, None)
+    try:
+        if _stat.S_ISDIR(os.fstat(fd).st_mode):
+            STATE.fdpaths[fd] = os.path.join(STATE.root, r) if r != "." else STATE.root
+    except OSError:
+        pass
     w.obs(op, "ok")
     return fd
 
